@@ -79,6 +79,9 @@ type expectation struct {
 	specDeps map[string][]string
 	extRoot  string         // prefix of external paths ("" for a bucket input ".", the directory the user gave for the CLI)
 	remote   map[int]string // module index -> commit id (dashed) for modules served by a provider instead of the workspace
+	// canon, if set, is applied to every expected descriptor before the comparison (text encodings: custom options as typed
+	// extension fields of the reference resolver on both sides).
+	canon func(*descriptorpb.FileDescriptorProto) *descriptorpb.FileDescriptorProto
 }
 
 // counters of clause coverage, merged into the run at the end of a work item.
@@ -203,6 +206,9 @@ func checkImage(point string, exp *expectation, obs []obsFile, cnt counters) []v
 				continue
 			}
 			cnt.add("clause_descriptor_files", 1)
+			if exp.canon != nil {
+				wantProto = exp.canon(wantProto)
+			}
 			if !protoSame(o.Proto, wantProto) {
 				a, b := proto.Clone(o.Proto).(*descriptorpb.FileDescriptorProto), proto.Clone(wantProto).(*descriptorpb.FileDescriptorProto)
 				a.SourceCodeInfo, b.SourceCodeInfo = nil, nil
@@ -257,7 +263,11 @@ func checkImage(point string, exp *expectation, obs []obsFile, cnt counters) []v
 				bad("harness/wkt", "%s", w.err)
 				continue
 			}
-			if !protoSame(o.Proto, w.withSource) {
+			wantBuiltin := w.withSource
+			if exp.canon != nil {
+				wantBuiltin = exp.canon(wantBuiltin)
+			}
+			if !protoSame(o.Proto, wantBuiltin) {
 				bad("wkt/builtin-differs", "%s: descriptor is not the compilation of the built-in datawkt text", o.Path)
 			}
 			if w.linkedIn != nil {
